@@ -411,6 +411,9 @@ class WScenario(object):
         w.submit(0, 0)
         w.submit(1, 0)
         instr.advance(0.05)
+        # the poll calls the trigger and the intervention cause are the ones that raise
+        n = w.calls.get("poll_fn", 0)
+        w.at = set([n, n + 1])
         return ctx
 
     def victim_role(self, ctx):
@@ -439,6 +442,8 @@ class WScenario(object):
         if ctx.probe is not None and not ctx.probe["f"].done():
             res.violation("probe-stuck/poll_fn", "%s: probe never completed" % label)
         ctx.w.judge(res, label, ctx.threads)
+        if not ctx.w.fired:
+            res.inconclusive.append("%s: no fault was injected" % label)
         if info.get("hit"):
             res.key("wsweep", info.get("site"))
 
